@@ -59,8 +59,10 @@ struct midpoint_ellipse_rasterizer
         // Variables declared on following lines are temporary variables used for improving
         // performance since they help in converting all multiplicative operations inside the while
         // loop into additive/subtractive operations.
-        long long int const t1 = semi_axes[0] * semi_axes[0];
-        long long int const t4 = semi_axes[1] * semi_axes[1];
+        // Widen before multiplying: the square of a semi-axis >= 65536 does not fit unsigned int
+        // (it wrapped to 0 and the first loop below never terminated).
+        long long int const t1 = static_cast<long long int>(semi_axes[0]) * semi_axes[0];
+        long long int const t4 = static_cast<long long int>(semi_axes[1]) * semi_axes[1];
         long long int t2, t3, t5, t6, t8, t9;
         t2 = 2 * t1, t3 = 2 * t2;
         t5 = 2 * t4, t6 = 2 * t5;
